@@ -272,7 +272,7 @@ def c15_driver(a, col):
         rng = np.random.default_rng([a.seed, pidx, a.shard, prog])
         prog += 1
         nsteps = int(rng.integers(5, 12))
-        opts = {"approx_ops": False, "op_reuse": 0.45, "reuse_custom": True, "refuse_reuse": 0.3, "refuse_first": 0.15, "weights": {"config": 0, "measure": 0.3, "povm": 0.2, "kraus": 0.5, "apply1": 8, "applyc": 6,
+        opts = {"approx_ops": False, "op_reuse": 0.45, "reuse_custom": True, "refuse_reuse": 0.3, "refuse_first": 0.15, "ladder_expr": 0.4, "weights": {"config": 0, "measure": 0.3, "povm": 0.2, "kraus": 0.5, "apply1": 8, "applyc": 6,
                                                    "resize": 1.0, "combine": 1.0}}
         try:
             decl, steps, A = gen_program(rng, "ops", a.tier, opts, bool(rng.random() < 0.5), nsteps, op_reuse=True)
@@ -320,7 +320,9 @@ def c15_driver(a, col):
         # agree with each other if, say, a cache shared between objects handed both the same wrong matrix)
         from pwv import oracles as O
         for rec in runA.records:
-            if rec.step["k"] != "apply":
+            if rec.step["k"] != "apply" or rec.step["op"].get("ladder"):
+                # (cutoff-dependent expressions are compared between the twins only: which cutoff the library picks for
+                # an expression over modes is its own documented rule, not something the reference second-guesses)
                 continue
             for pr in ("C01", "C03"):
                 for v in O.judge_apply(rec, pr):
